@@ -538,6 +538,11 @@ def directed(cfg):
         out.append(('reloc-two-long-names', chain + [deep('DEEPA', 'a' * 150), deep('DEEPB', 'b' * 150),
                                                      dict({'op': 'addfp', 'cid': 2001, 'n': 9, 'iso': ip + '/DEEPA/X.;1', 'rr': 'x'},
                                                           **({'joliet': op_ + '/deepa/x'} if cfg.get('joliet') else {}))]))
+        # a relocated directory survives a write + open; the image then grows (the placeholder must not turn into a file)
+        out.append(('reloc-reopen-grow', chain + [deep('DEEP', 'deep'), deep('DEER', 'deer'), {'op': 'reopen'},
+                                                   dict({'op': 'addfp', 'cid': 2002, 'n': 5000, 'iso': '/GROW.;1', 'rr': 'grow'},
+                                                        **({'joliet': '/grow'} if cfg.get('joliet') else {})),
+                                                   {'op': 'reopen'}, deep('DEEQ', 'deeq')]))
         out.append(('reloc-remove-readd', chain + [deep('DEEP', 'deep'), rmdeep('DEEP'), deep('DEEP', 'deep'), deep('DEEQ', 'q' * 200), rmdeep('DEEQ')]))
     # three copies of the primary volume descriptor, then the root directory grows and moves
     out.append(('three-pvds-root-grows', [{'op': 'duppvd'}, {'op': 'duppvd'}, addfp(root, 'FIRST.;1', 'first', n=3)] +
